@@ -143,7 +143,32 @@ def run(ctx):
                                     "chunks; random histories beyond")
 
 
+def long_run_history(ctx):
+    """One receive buffer holding well over a thousand complete minimal packets back to back (a dump file, a large read),
+    parsed by ONE call."""
+    from spacepackets.ccsds.spacepacket import PacketId, PacketType, SpacePacket, SpacePacketHeader, parse_space_packets
+    n = 1300
+    pid = PacketId(PacketType.TM, False, 0x123)
+    stream, packets = bytearray(), []
+    for i in range(n):
+        raw = SpacePacket(SpacePacketHeader(packet_type=PacketType.TM, apid=0x123, seq_count=i % 16384, data_len=0), None,
+                          bytes([i % 251])).pack()
+        packets.append(octs(raw))
+        stream += raw
+    yield {"op": "init", "ids": [pid.raw()], "clean": True}
+    dq = collections.deque([bytearray(stream)])
+    yield {"op": "feed", "chunk": octs(stream)}
+    res = outcome(lambda: {"out": [octs(p) for p in parse_space_packets(dq, [pid])]})
+    yield {"op": "parse", "out": res.get("out", [[-1]]), "queue": [octs(c) for c in dq]}
+    yield {"op": "end", "packets": packets}
+
+
 def histories(ctx):
+    yield from long_run_history(ctx)
+    yield from histories_random(ctx)
+
+
+def histories_random(ctx):
     from spacepackets.ecss.tc import PusTc
     from spacepackets.ecss.tm import PusTm
     from spacepackets.ccsds.spacepacket import PacketId, PacketType
@@ -184,7 +209,17 @@ def histories(ctx):
             packets.append(octs(stream[at:]))
             if not clean and rng.random() < 0.5:
                 f0 = len(stream)
-                stream += bytes([rng.choice([0xFF, 0xFF, 0xE7, 0x00])]) * rng.randrange(1, 12)
+                if len(ids) > 1 and rng.random() < 0.3:
+                    # junk that looks half like one registered ID and half like another (first octet of one, second octet of
+                    # the other): a packet ID is the whole 13-bit word
+                    a_, b_ = rng.sample(ids, 2)
+                    mixed = ((a_ >> 8) << 8) | (b_ & 0xFF)
+                    if mixed not in idset:
+                        stream += bytes([mixed >> 8, mixed & 0xFF]) * rng.randrange(1, 4)
+                    else:
+                        stream += b"\xff"
+                else:
+                    stream += bytes([rng.choice([0xFF, 0xFF, 0xE7, 0x00])]) * rng.randrange(1, 12)
                 filler.update(range(f0, len(stream)))
         # a filler octet must not be able to start a registered packet ID together with its right neighbour; otherwise the
         # stream is ambiguous and only the per-call comparison applies (no end-of-history delivery check)
